@@ -10,16 +10,16 @@ VERIF = os.path.abspath(os.path.join(HERE, ".."))
 AUDIT_ROUND = {'C02': "Audit round: how tunnels end through the real endpoint on every transport (c02_ends: client first, destination first, both, destination reset, client reset): bytes complete on both sides, a failure never seen as a clean end, the endpoint's socket to the destination gone after a client failure; one known finding (HTTP/1.1 has no half-close)", 'C03': 'Audit round: resolver answers with several addresses are driven for real (a private hosts file bind-mounted in a mount namespace); theorems hostname_refusal_is_loopback_iff_all_loopback and hostname_refusal_class_order_independent on the corrected connect loop', 'C04': 'Audit round: rules files whose conditions have the wrong TOML type (matched by nothing, like any malformed condition); the ClientHello sent in two TLS records is judged with its random', 'C05': 'Audit round: theorem alternative_sni_designates_its_host (a configured alternative SNI comes before the credentials pattern, the order of the statement); the hosts file rewritten under the real binary + SIGHUP (missing certificate, not TOML, removed, duplicate name, certificate file without certificate, shared alternative SNI, then good): the process stays up, the names in force after every reload are the previous ones or the new ones', 'C06': "Audit round: the record limit is RFC 768's 65507-byte payload (Spec/UdpWire.v no longer copies the code's bound)", 'C07': 'Audit round: faults on one SOCKS5 association (malformed relay answer, closed relay port, association set up while the expiry tick falls) stay inside their flow: the tunnel stays open and every other datagram gets its reply; the associations model (Model/SocksFlows.v) has read / send errors and cut set-ups as operations', 'C09': 'Audit round: theorem forwarded_chunk_size_line_is_bounded; an origin whose status line, header value or chunk-size line never ends is refused within a stated bound (64 KiB / 4 KiB) whatever the segmentation', 'C10': "Audit round: 200 for a multiplexer only if it could be made (ok_iff takes the forwarder's answer for _icmp and _udp2; theorem refused_multiplexer_codes); sessions with and without an ICMP forwarder; a name with several loopback addresses is 311; CONNECT _udp2 through a SOCKS5 server that falls silent at any stage is answered 502 / 302 at the establishment timeout", 'C11': "Audit round: theorems unreachable_parsed_with_any_code, unreachable_quoting_a_request_is_reported, unsendable_request_is_dropped, failed_send_spares_the_others, failed_send_leaves_no_waiter, pending_until_its_timeout, reply_reported_while_pending (waiters carry their own deadline); CONNECT _icmp through the real listener with forged ICMP answers from a raw socket: every RFC-defined Destination Unreachable code reported, an unsendable request (TTL 0, oversize, broadcast, no IPv6 route) does not end the stream, a request sent again is not expired by its predecessor's deadline", 'C13': 'Audit round: hosts accepted iff every name (host names and alternative SNIs) has one entry and every certificate file holds a certificate (hosts_accepted_iff / hosts_refused_iff restated, accepted_host_names_are_distinct)', 'C14': "Audit round: theorem silent_upstream_settled_by_establishment_timeout (the forwarder's check of a multiplexer request runs under the establishment timeout), with the real endpoint against a SOCKS5 server that falls silent", 'C15': 'Audit round: theorems empty_fields_fail_unwritten, wellformed_credentials_are_not_empty, extended_values_of_a_request (the grammar asks for 1..255 / (0..MAX]); em_wellformed pins the address type of the request; end to end: plain GET requests to IPv4 / IPv6 literals without a port or with userinfo keep their address type at the SOCKS5 server; credentials with an empty half and an empty User-Agent never reach the wire as zero-length fields', 'C16': "Audit round: a client that is reset or vanishes while its tunnel's destination stays (c16_gone): outbound_tcp_sockets back to zero", 'C17': 'Audit round: through the real HTTP/1.1 codec (c17_front_h1): interim responses followed at once by the final head, request bodies slower than the idle timer of the other direction; OPTIONS with a path, Transfer-Encoding in any case and after other codings, Content-Length next to Transfer-Encoding for every client; theorems limited_chunk_size_parser_ok, stated_chunk_size_line_limit', 'C18': 'Audit round: the reverse proxy against a scripted origin (c18_rp) over the door, TLS and QUIC: request bodies the origin reads before answering, response heads up to 8000 bytes / 100 fields whole or cut at chosen offsets: one connection to the origin, the request and its body as sent, the response and its body as the origin wrote them', 'C19': 'Audit round: an HTTP/1.1 tunnel whose upload is stalled winds down within seconds of the submission', 'C20': 'Audit round: every needle is also searched in its decimal-array rendering; server names of hosts the endpoint does not serve, sessions without an authenticator, HTTP/3 sessions with credentials at trace level, in process and from the real binary'}
 
 REVIEW_ROUND = {
-    'C02': "Review round: a client failure while the tunnel is back-pressured (c02_ends scenario 5 on every transport); read-side model of the HTTP/3 source, theorem h3_client_reset_is_a_read_failure, fact H3_SOURCE_RESET_IS_A_READ_FAILURE",
+    'C02': "Review round: a client failure while the tunnel is back-pressured (c02_ends scenario 5 on every transport); read-side model of the HTTP/3 source, theorem h3_client_reset_is_a_read_failure, fact H3_SOURCE_RESET_IS_A_READ_FAILURE; an HTTP/3 reset right behind the data (scenario 6, sixty rounds per case; facts H3_SOURCE_ASKS_THE_CONNECTION; the theorem now quantifies over the order in which codec and source come to know)",
     'C03': "Review round: the documentation block 3fff::/20 (the spec had the code's /12); every second hextet under 3fff:, 3ffe:, 3ff0: and 5f00: swept",
     'C04': "Review round: the rules file loader is modelled (Model/RulesLoader.v, theorem rules_file_is_read_as_written: both TOML spellings of the list load to the same rules, file order kept, a condition of the wrong type matches nothing; facts RULES_LOADER_AS_MODELLED, RULES_INLINE_TABLES_READ) and the process-level cases write half of their files as arrays of inline tables",
     'C07': "Review round: the process's socket descriptors are counted against a baseline (direct forwarder and SOCKS5 upstream), a SOCKS5 server silent during one UDP ASSOCIATE; Model/UdpParked.v, theorem open_descriptors_are_the_table, facts UDP_CLOSE_WAKES_THE_READING_SIDE, SOCKS_CLOSE_WAKES_THE_READING_SIDE, UDP_ASSOCIATE_UNDER_ESTABLISHMENT_TIMEOUT",
     'C10': "Review round: the refusal of CONNECT _icmp without an ICMP forwarder carries the generic code (theorem refused_icmp_multiplexer_code, fact ICMP_REFUSAL_CARRIES_WARNING, direct oracle on the real sessions)",
     'C14': "Review round: the handshake deadline as an instant the clock can represent (listener_handshake, theorems completed_listener_handshake_took_less_than_its_timeout, prompt_handshake_completes_under_any_timeout; a prompt client under the largest configurable timeout at the real listener); silent_association_settled_by_establishment_timeout",
     'C16': "Review round: c16_gone how=3 (an HTTP/3 stream reset under back-pressure: outbound_tcp_sockets back to zero)",
-    'C17': "Review round: absolute-form targets with an empty path for HTTP/1.1 clients; the http crate's rendering and what is written for it are modelled (crate_as_str, wire_target), theorem forwarded_target_is_origin_form, fact FWD_EMPTY_PATH_IS_SLASH; one more recorded finding (OPTIONS without path and query)",
-    'C18': "Review round: the response side of the HTTP/1.1 codec under a scripted transport with dropped listen futures (engine c18_dl against Model/Http1Download.v, theorem http1_download_survives_dropped_futures, fact HTTP1_MESSAGE_IN_FLIGHT_KEPT); an origin that refuses an upload and closes without reading it, eight exchanges per case (fact RP_HEAD_WAIT_KEEPS_THE_ORIGINS_ANSWER)",
-    'C19': "Review round: an HTTP/1.1 session whose client has stopped reading at shutdown (c19_front 128; theorem http1_session_finishes_within_its_bound, facts HTTP1_ORDERLY_CLOSE_BOUNDED, HTTP1_GRACEFUL_SHUTDOWN_TIMEOUT_MS)",
+    'C17': "Review round: absolute-form targets with an empty path for HTTP/1.1 clients; the http crate's rendering and what is written for it are modelled (crate_as_str, wire_target), theorem forwarded_target_is_origin_form, fact FWD_EMPTY_PATH_IS_SLASH; one more recorded finding (OPTIONS without path and query); origins that keep their connection open after a self-delimiting response (added after a seed was missed)",
+    'C18': "Review round: the response side of the HTTP/1.1 codec under a scripted transport with dropped listen futures (engine c18_dl against Model/Http1Download.v, theorem http1_download_survives_dropped_futures, fact HTTP1_MESSAGE_IN_FLIGHT_KEPT); an origin that refuses an upload and closes without reading it, eight exchanges per case (fact RP_HEAD_WAIT_KEEPS_THE_ORIGINS_ANSWER); a large answer to a refused upload for a slowly reading client (recorded finding rp-refused-upload-large-answer-cut: witness theorem on the regenerated flag, a_repair_relays_the_whole_answer); origins_answer_survives_a_failed_upload (Model/RpHeadWait.v: while the head is awaited the origin's side alone decides, for every handling order and any head parser); a client that pauses while the response ends (c18_dl op 4 under virtual time, twelve rounds; fact HTTP1_OWN_CLOSE_WAITS_FOR_THE_CLIENT)",
+    'C19': "Review round: an HTTP/1.1 session whose client has stopped reading at shutdown (c19_front 128; theorem http1_session_finishes_within_its_bound, facts HTTP1_ORDERLY_CLOSE_BOUNDED, HTTP1_GRACEFUL_SHUTDOWN_TIMEOUT_MS); an HTTP/2 download in flight at the submission runs to its end (engine c19_h2_drain; fact SESSION_CLOSE_BOUND_IS_FOR_HTTP1_ONLY, theorem http2_streams_in_flight_run_to_their_end); the close limit sits where a submitted shutdown closes an HTTP/1.1 session (shutdown::close_within_bound)",
 }
 
 CLAIMED = {
